@@ -34,6 +34,26 @@ pub fn check(t: &Trace<'_>, out: &mut CaseOut) -> bool {
         // a client that busy-waits on the clock distorts virtual time (no broker traffic can be
         // delivered while it spins): that is C16's finding, and this connection is not judged here
         let spun = w.events[ci.ev_begin..ci.ev_end.min(w.events.len())].iter().any(|e| matches!(e, Ev::ClockSpin | Ev::Watchdog));
+        // (a'') a wait that begins with a PINGREQ already due (none outstanding) and ends, without
+        // having read anything, because the caller gave up or the client span on the clock, must
+        // have written that PINGREQ - this does not depend on how virtual time moved meanwhile
+        if ka > 0 && ci.stream_ok {
+            for o in ops.iter().filter(|o| matches!(o.kind, "poll" | "recv" | "pollreply") && matches!(o.outcome, Outcome::CallerTimeout | Outcome::Watchdog)) {
+                let Some(sn) = &o.snap_before else { continue };
+                let due = sn.next_ping.is_some_and(|np| np <= o.t_call) && sn.ping_timeout.is_none();
+                let consumed = w.events[o.ev_call..o.ev_ret].iter().any(|e| matches!(e, Ev::Consumed { .. }));
+                let busy = w.events[o.ev_call..o.ev_ret].iter().any(|e| matches!(e, Ev::SlowWrite { .. } | Ev::Io { ans: IoAns::Err(_) | IoAns::Eof | IoAns::Zero, .. }));
+                let fits = ci.mps.is_none_or(|m| m >= 2 && sn.tx.retained.iter().all(|e| e.len <= m as usize));
+                if due && !consumed && !busy && fits && o.t_ret > o.t_call {
+                    out.count("waits_that_began_with_a_ping_due", 1);
+                    let wrote = c.out.packets.iter().any(|p| matches!(p.pkt, CPacket::PingReq) && p.ev >= o.ev_call && p.ev <= o.ev_ret);
+                    if !wrote {
+                        out.violations.push(viol("C10", "C10/gap/ping-due-but-not-sent", format!("conn {}: {} began at {} with a PINGREQ due since {:?} and none outstanding, waited until {} ({:?}) and wrote no PINGREQ (retained {}, PUBRELs {}, owed control packets {})", ci.idx, o.kind, o.t_call, sn.next_ping, o.t_ret, o.outcome, sn.tx.retained.len(), sn.tx.release.len(), sn.tx.control.len())));
+                        break;
+                    }
+                }
+            }
+        }
         if spun {
             out.count("connections_skipped_clock_spin", 1);
             continue;
